@@ -168,3 +168,32 @@ for k_ in range(1, 8):
     u = unit(f"kzg.AggregateProof.flatten[{k_}]", "src/commitment_scheme/kzg10/proof.rs", "alloc::AggregateProof::flatten",
              [("self", mk_aggregate(k_)), ("v_challenge", sym("v"))], c_flatten(k_), lambda res, args, ctx: {"result": res})
     u.extra_contracts = {"powers_of": _c_powers_of, ".par_iter": lambda it, recv, a: VIter(list(recv.items)) if isinstance(recv, VArr) else NotImplemented}
+
+
+# ------------------------------------------------------------------ CommitKey::commit: degree rule FIRST, then the linear image of the coefficient vector
+def c_check_degree(it, recv, a):
+    """Err(PolynomialDegreeTooLarge) exactly when the degree exceeds the key's max_degree (the arithmetic is a Verus unit)"""
+    return ("fallible_if", VOpaque("gt", [a[0], VOpaque("max_degree", [recv])]), "Error::PolynomialDegreeTooLarge", UNIT)
+
+
+
+
+def c_commit(it, recv, a):
+    """commit(p): the ONLY exit is the degree rule, checked on EVERY polynomial before anything is computed; the result is the
+    multi-scalar product of the key's powers with the coefficient vector (msm_variable_base = sum coeff_i * [x^i]G, ASSUMED)"""
+    poly = a[0]
+    it.ctx.exits.append(("err_if", VOpaque("gt", [VOpaque("degree", [poly]), VOpaque("max_degree", [recv])]), "Error::PolynomialDegreeTooLarge"))
+    return VOk(VOpaque("Commitment", [VOpaque("msm_variable_base", [Sym(recv.path + ".powers_of_g"), poly])]))
+
+
+def out_exits_result(res, args, ctx):
+    return {"exits": list(ctx.exits), "result": res}
+
+
+_cu = unit("kzg.CommitKey.commit", KEY, "CommitKey::commit", [("self", sym("self")), ("polynomial", sym("polynomial"))], c_commit, out_exits_result)
+_cu.extra_contracts = {"msm_variable_base": lambda it, recv, a: VOpaque("msm_variable_base", [a[0], a[1]]),
+                       "Commitment::from": lambda it, recv, a: VOpaque("Commitment", [a[0]]),
+                       "self.check_commit_degree_is_within_bounds": c_check_degree,
+                       "self.max_degree": lambda it, recv, a: VOpaque("max_degree", [recv]),
+                       "polynomial.degree": lambda it, recv, a: VOpaque("degree", [recv])}
+_cu.helper_files = [KEY, "src/fft/polynomial.rs", "src/util.rs"]
